@@ -38,6 +38,11 @@ Proof. exact qsum_perm. Qed.
 Theorem C14_derived_simulators : sim_subset_forwards_options = true /\ sim_replace_forwards_options = true.
 Proof. split; reflexivity. Qed.
 
+(** a simulator stores its components and options and nothing derived from them: every simulate / simulate_2d call starts from the
+    components as they are now (generated class-state fact) *)
+Theorem C14_no_memo : simulator_stores_components_and_options_only = true.
+Proof. reflexivity. Qed.
+
 Print Assumptions C14_centre.
 Print Assumptions C14_exact_paste_odd.
 Print Assumptions C14_exact_paste_even.
